@@ -298,6 +298,17 @@ class Machine:
                 'PropertyList': self._g_plist(draw)}}
         if g == 'create':
             ci, inst = self._g_new_instance(draw)
+            if draw(S._I10) < 3:
+                # NewInstance may carry a path (e.g. an instance retrieved
+                # from elsewhere); its namespace is used only if no
+                # namespace argument is given
+                inst['path'] = {
+                    'k': 'ipath', 'classname': inst['classname'],
+                    'keys': [('K0Id', 'string', 'pathkey')],
+                    'namespace': draw(st.sampled_from(self.nss + [None])),
+                    'host': draw(st.sampled_from([None, 'otherhost']))}
+                if inst['path']['namespace'] is None:
+                    inst['path']['host'] = None
             return {'op': 'CreateInstance', 'args': {
                 'NewInstance': inst, 'namespace': ns_arg()}, 'cls': ci}
         if g == 'modify':
